@@ -38,14 +38,14 @@ theorem links_chain (base : Str) (hrefs : List Str) (l : Str)
     (hl : l ∈ (links E cfg base hrefs).1) :
     ∃ b h u, effectiveBase E cfg base = .ok b ∧ h ∈ hrefs ∧ h ≠ [] ∧
       shouldFollowHref E h = true ∧ resolve E b h = .ok u ∧ E.isUrl u = true ∧
-      finish E cfg u = .ok l ∧ l ≠ b := by
+      finish E cfg u = .ok l ∧ l ≠ b ∧ (cfg.canonicalize = true → E.isUrl l = true) := by
   cases hb : effectiveBase E cfg base with
   | error e => rw [(links_eq_loop E cfg base hrefs).1 e hb] at hl; cases hl
   | ok b =>
     rw [(links_eq_loop E cfg base hrefs).2 b hb] at hl
     obtain ⟨h, hh, hy⟩ := linksLoop_mem E cfg b hrefs [] l hl
-    obtain ⟨h0, hf, u, hr, hu, hc, hne⟩ := (step_yield_iff E cfg b h l).mp hy
-    exact ⟨b, h, u, rfl, hh, h0, hf, hr, hu, hc, hne⟩
+    obtain ⟨h0, hf, u, hr, hu, hc, hne, hre⟩ := (step_yield_iff E cfg b h l).mp hy
+    exact ⟨b, h, u, rfl, hh, h0, hf, hr, hu, hc, hne, hre⟩
 
 /-- **followable.** Every yielded link comes from a non-empty href of the document that
 `should_follow_href` accepts and whose resolved URL (the href itself when it has a protocol,
@@ -56,7 +56,7 @@ theorem links_followable (base : Str) (hrefs : List Str) :
         shouldFollowHref E h = true ∧ resolve E b h = .ok u ∧ E.isUrl u = true ∧
         finish E cfg u = .ok l := by
   intro l hl
-  obtain ⟨b, h, u, h1, h2, h3, h4, h5, h6, h7, _⟩ := links_chain E cfg base hrefs l hl
+  obtain ⟨b, h, u, h1, h2, h3, h4, h5, h6, h7, _, _⟩ := links_chain E cfg base hrefs l hl
   exact ⟨b, h, u, h1, h2, h3, h4, h5, h6, h7⟩
 
 /-- what `should_follow_href` accepts: after stripping, not empty, not starting with `#`, and
@@ -85,7 +85,7 @@ theorem links_not_base (base : Str) (hrefs : List Str) :
       (cfg.canonicalize = false → l ≠ base) ∧
       (cfg.canonicalize = true → ∃ b, E.canon base = .ok b ∧ l ≠ b) := by
   intro l hl
-  obtain ⟨b, h, u, h1, _, _, _, _, _, _, hne⟩ := links_chain E cfg base hrefs l hl
+  obtain ⟨b, h, u, h1, _, _, _, _, _, _, hne, _⟩ := links_chain E cfg base hrefs l hl
   obtain ⟨e1, e2⟩ := effectiveBase_spec E cfg base b h1
   exact ⟨fun hc => by rw [← e1 hc]; exact hne, fun hc => ⟨b, e2 hc, hne⟩⟩
 
@@ -95,7 +95,7 @@ theorem links_canonical (hc : cfg.canonicalize = true) (base : Str) (hrefs : Lis
     ∀ l ∈ (links E cfg base hrefs).1,
       ∃ b h u, E.canon base = .ok b ∧ h ∈ hrefs ∧ resolve E b h = .ok u ∧ E.canon u = .ok l := by
   intro l hl
-  obtain ⟨b, h, u, h1, h2, _, _, h5, _, h7, _⟩ := links_chain E cfg base hrefs l hl
+  obtain ⟨b, h, u, h1, h2, _, _, h5, _, h7, _, _⟩ := links_chain E cfg base hrefs l hl
   refine ⟨b, h, u, (effectiveBase_spec E cfg base b h1).2 hc, h2, h5, ?_⟩
   simpa [finish, hc] using h7
 
@@ -103,7 +103,7 @@ theorem links_canonical (hc : cfg.canonicalize = true) (base : Str) (hrefs : Lis
 theorem links_plain (hc : cfg.canonicalize = false) (base : Str) (hrefs : List Str) :
     ∀ l ∈ (links E cfg base hrefs).1, ∃ h ∈ hrefs, resolve E base h = .ok l := by
   intro l hl
-  obtain ⟨b, h, u, h1, h2, _, _, h5, _, h7, _⟩ := links_chain E cfg base hrefs l hl
+  obtain ⟨b, h, u, h1, h2, _, _, h5, _, h7, _, _⟩ := links_chain E cfg base hrefs l hl
   have hb := (effectiveBase_spec E cfg base b h1).1 hc
   subst hb
   have : u = l := by simpa [finish, hc] using h7
@@ -129,7 +129,7 @@ theorem links_relative_resolved (base : Str) (hrefs : List Str) :
         (E.protocolMatch h = false → E.urljoin b h = .ok u) ∧
         (E.protocolMatch h = true → u = h) := by
   intro l hl
-  obtain ⟨b, h, u, h1, h2, _, _, h5, _, h7, _⟩ := links_chain E cfg base hrefs l hl
+  obtain ⟨b, h, u, h1, h2, _, _, h5, _, h7, _, _⟩ := links_chain E cfg base hrefs l hl
   refine ⟨b, h, u, h1, h2, h7, ?_, ?_⟩
   · intro hp; simpa [resolve, hp] using h5
   · intro hp
@@ -158,35 +158,31 @@ theorem links_complete (base b : Str) (hb : effectiveBase E cfg base = .ok b) (h
   · exact h1
   · cases h1
 
-/-- the clause "every yielded link is accepted by `is_url`", full strength: **false** for
-`canonicalize=True`, because `is_url` is tested before `canonicalize_url` is applied
-(links_from_html.py:37-47) and ural's `canonicalize_url` does not preserve `is_url`
-(`http://xn--ki8h.ws/` ↦ `http://🍊.ws/`, whose host `is_url` rejects, D41; also
-`http://a.com:08/` ↦ `http://a.com:8`, whose one-digit port `is_url` rejects) -/
+/-- the clause "every yielded link is accepted by `is_url`", full strength -/
 def FullLinksAreUrls : Prop :=
   ∀ (E : Env) (cfg : Cfg) (base : Str) (hrefs : List Str),
     ∀ l ∈ (links E cfg base hrefs).1, E.isUrl l = true
 
-/-- the hypothesis under which the clause holds: `canonicalize_url` maps accepted URLs to
-accepted URLs -/
-def CanonPreservesIsUrl (E : Env) : Prop :=
-  ∀ u c, E.isUrl u = true → E.canon u = .ok c → E.isUrl c = true
-
-/-- **accepted by is_url** (partial): without `canonicalize`, or when `canonicalize_url`
-preserves `is_url`, every yielded link is accepted by `is_url`. -/
-theorem links_are_urls_partial (hyp : cfg.canonicalize = false ∨ CanonPreservesIsUrl E)
-    (base : Str) (hrefs : List Str) :
-    ∀ l ∈ (links E cfg base hrefs).1, E.isUrl l = true := by
-  intro l hl
-  obtain ⟨b, h, u, _, _, _, _, _, h6, h7, _⟩ := links_chain E cfg base hrefs l hl
+/-- **accepted by is_url** (full, for arbitrary parameters): `links_from_html` tests `is_url`
+on the resolved href and, since the fix `links-from-html-rechecks-canonical-url`, again on its
+canonical form (links_from_html.py:48-56). -/
+theorem links_are_urls : FullLinksAreUrls := by
+  intro E cfg base hrefs l hl
+  obtain ⟨b, h, u, _, _, _, _, _, h6, h7, _, hre⟩ := links_chain E cfg base hrefs l hl
   cases hc : cfg.canonicalize with
   | false =>
     have : u = l := by simpa [finish, hc] using h7
     exact this ▸ h6
-  | true =>
-    rcases hyp with h0 | h0
-    · rw [hc] at h0; cases h0
-    · exact h0 u l h6 (by simpa [finish, hc] using h7)
+  | true => exact hre hc
+
+/-- kept under its old name: the hypothesis is no longer used -/
+def CanonPreservesIsUrl (E : Env) : Prop :=
+  ∀ u c, E.isUrl u = true → E.canon u = .ok c → E.isUrl c = true
+
+theorem links_are_urls_partial (_hyp : cfg.canonicalize = false ∨ CanonPreservesIsUrl E)
+    (base : Str) (hrefs : List Str) :
+    ∀ l ∈ (links E cfg base hrefs).1, E.isUrl l = true :=
+  links_are_urls E cfg base hrefs
 
 /-- what ural's `is_url(…, only_http_https=True)` guarantees by its first lines (it strips its
 argument and refuses it unless `HTTP_PROTOCOL_RE` matches): an accepted URL, stripped, is not
@@ -221,17 +217,6 @@ private def toy : Env where
   urljoin := fun b u => .ok (b ++ u)
   isUrl := fun u => u.head? == some 'h'
   canon := fun u => .ok (u.map fun c => if c == 'x' then 'X' else c)
-
-/-- an environment whose `canonicalize_url` leaves the set accepted by `is_url` -/
-private def bad : Env := { toy with canon := fun u => .ok ('n' :: u) }
-
-/-- the excluded region is real: with such a `canonicalize_url` a yielded link is not
-accepted by `is_url` -/
-example : ¬ FullLinksAreUrls := by
-  intro h
-  have := h bad ⟨true, false⟩ (s "hb") [s "hx"] (s "nhx") (by decide)
-  revert this
-  decide
 
 /-- non-vacuity: duplicates up to canonicalization are removed, the base (up to
 canonicalization) is dropped, `#…`, `mailto:` and empty hrefs are dropped, a relative href is
